@@ -464,7 +464,7 @@ from pymtl3 import *
 from pymtl3.stdlib.ifcs import RecvIfcRTL, SendIfcRTL
 
 class IfcA_{uid}(Component):
-  def construct(s):
+  def construct(s, k=3):
     s.recv = RecvIfcRTL(Bits8)
     s.send = SendIfcRTL(Bits8)
     s.send.msg //= s.recv.msg
@@ -472,11 +472,11 @@ class IfcA_{uid}(Component):
     s.recv.rdy //= s.send.rdy
 
 class IfcB_{uid}(Component):
-  def construct(s):
+  def construct(s, k=3):
     s.recv = RecvIfcRTL(Bits8)
     s.send = SendIfcRTL(Bits8)
     s.k = Wire(Bits8)
-    s.k //= 3
+    s.k //= k
     @update
     def up_b():
       s.send.msg @= s.recv.msg + s.k
@@ -484,7 +484,7 @@ class IfcB_{uid}(Component):
       s.recv.rdy @= s.send.rdy
 
 class IfcC_{uid}(Component):
-  def construct(s):
+  def construct(s, k=3):
     s.recv = RecvIfcRTL(Bits8)
     s.send = SendIfcRTL(Bits8)
     s.inner = IfcA_{uid}()
@@ -492,9 +492,13 @@ class IfcC_{uid}(Component):
     s.inner.send //= s.send
 
 class IfcTop_{uid}(Component):
-  def construct(s, classes):
+  def construct(s, classes, params=None):
     s.recv = RecvIfcRTL(Bits8)
     s.send = SendIfcRTL(Bits8)
+    # construct-parameter overrides for list elements (exact name or wildcard): a replacement at that
+    # position must receive them exactly like a component built there from scratch
+    for pat, kv in (params or []):
+      s.set_param(pat, k=kv)
     s.st = [c() for c in classes]
     s.recv //= s.st[0].recv
     for i in range(len(classes) - 1):
@@ -571,8 +575,12 @@ def gen_template_case(R, c):
   ops = []
   for _ in range(c.randint(1, 4)):
     ops.append({"idx": c.randrange(n), "cls": c.choice(names), "with_obj": c.random() < 0.4})
+  params = []
+  if kind == "ifc" and c.random() < 0.5:
+    for _ in range(c.randint(1, 2)):
+      params.append([c.choice(["top.st[%d].construct" % c.randrange(n), "top.st*.construct"]), c.choice([0, 5, 9])])
   return {"family": "template", "kind": kind, "start": start, "ops": ops, "uid": "k%x" % (R.seed & 0xffffff),
-          "hash_seed": R.sub_seed("hash")}
+          "hash_seed": R.sub_seed("hash"), "params": params}
 
 
 def run_template(case):
@@ -589,7 +597,9 @@ def run_template(case):
   viols = []
   cur = list(case["start"])
   try:
-    top = Top([cls_of(n) for n in cur])
+    mk = (lambda: Top([cls_of(n) for n in cur], case.get("params") or None)) if case["kind"] == "ifc" else \
+         (lambda: Top([cls_of(n) for n in cur]))
+    top = mk()
     top.elaborate()
   except Exception as e:
     return {"violations": [C.exc_violation(e, "elaborate/template")], "digest": D.hex(), "nontrivial": False,
@@ -603,7 +613,7 @@ def run_template(case):
       else:
         top.replace_component(top.st[op["idx"]], cls_of(op["cls"]))
         stats["fault_counts"]["op.replace_component"] += 1
-      twin = Top([cls_of(n) for n in cur])
+      twin = mk()
       twin.elaborate()
     except Exception as e:
       viols.append(C.exc_violation(e, "replace#%d/template" % k))
